@@ -143,6 +143,7 @@ Definition gen_meta_ok : bool :=
                        | Some (_, ms) => forallb (fun m => existsb (String.eqb (meth_name m)) ms) (trait_meths t)
                        | None => false end) [TCollect; TSubscribe; TFilter]
   && forallb (fun h => snd h) Gen_forwarding.gen_helpers
+  && N.eqb (install_count INew) 1 && N.eqb (install_count IFromStatic) 1       (* every Dispatch constructor registers exactly once *)
   && match Gen_forwarding.gen_unrecognised with [] => true | _ => false end.
 
 Definition table_ok : bool :=
